@@ -17,6 +17,11 @@ import (
 
 type igcLine struct {
 	K     string
+	Src   string
+	Key   string
+	Extra string
+	Colon bool
+	Value string
 	Dd    int
 	Mm    int
 	Yy    int
@@ -36,6 +41,12 @@ func renderIGCLine(l igcLine) string {
 		return "GSECURITYRECORD"
 	case "blank":
 		return ""
+	case "H":
+		s := "H" + l.Src + l.Key
+		if l.Colon {
+			s += l.Extra + ":"
+		}
+		return s + l.Value
 	case "HDTE":
 		if l.Short {
 			return fmt.Sprintf("HFDTE%02d%02d", l.Dd, l.Mm)
@@ -77,17 +88,49 @@ func daySec(unix float64) []int {
 	return []int{int(d), int(s)}
 }
 
-func igcReadProj(data []byte, out map[string]any) *igc.T {
+// maxLineLen is a projection of the input: the length of its longest "\n"-terminated piece.
+func maxLineLen(data []byte) int {
+	m := 0
+	for len(data) > 0 {
+		i := bytes.IndexByte(data, '\n')
+		if i < 0 {
+			i = len(data)
+		}
+		if i > m {
+			m = i
+		}
+		if i == len(data) {
+			break
+		}
+		data = data[i+1:]
+	}
+	return m
+}
+
+// igcReadProj reads data and records projections of everything igc.Read returned: the line string, the headers
+// (hdrMode "full": every field, for input rendered by this driver; "dates": the first six characters of the value of the
+// DTE headers; otherwise only their number), the kind of the error and the number of record errors.
+func igcReadProj(data []byte, out map[string]any, hdrMode string) *igc.T {
 	out["layout"], out["flatlen"], out["nfix"], out["nerr"], out["times"] = "?", 0, 0, 0, [][]int{}
+	out["errkind"], out["maxline"], out["nhdr"] = "?", maxLineLen(data), 0
+	switch hdrMode {
+	case "full":
+		out["hdrs"] = [][]string{}
+	case "dates":
+		out["hdates"] = []string{}
+	}
 	var res *igc.T
 	ev, msg := call(func() {
 		t, err := igc.Read(bytes.NewReader(data))
 		res = t
+		out["errkind"] = "nil"
 		if err != nil {
 			if es, ok := err.(igc.Errors); ok {
+				out["errkind"] = "Errors"
 				out["nerr"] = len(es)
 				_ = es.Error()
 			} else {
+				out["errkind"] = fmt.Sprintf("%T", err)
 				out["nerr"] = -1
 			}
 		}
@@ -101,7 +144,20 @@ func igcReadProj(data []byte, out map[string]any) *igc.T {
 		}
 		out["times"] = times
 		_ = t.HasCoords()
-		_ = len(t.Headers)
+		out["nhdr"] = len(t.Headers)
+		hdrs, hdates := [][]string{}, []string{}
+		for _, h := range t.Headers {
+			hdrs = append(hdrs, []string{h.Source, h.Key, h.KeyExtra, h.Value})
+			if h.Key == "DTE" {
+				hdates = append(hdates, h.Value[:min(6, len(h.Value))])
+			}
+		}
+		switch hdrMode {
+		case "full":
+			out["hdrs"] = hdrs
+		case "dates":
+			out["hdates"] = hdates
+		}
 	})
 	if ev != "ok" {
 		out["ev"] = "panic"
@@ -123,15 +179,20 @@ func igcHandler(raw json.RawMessage) map[string]any {
 		Fam   string
 		Lines []igcLine
 		Track []struct {
-			Lonq, Latq, Alt int
-			T               []int
+			Lonq, Latq, Alt  int
+			Lone, Late, Altf int // optional: millionths of a position unit, thousandths of a metre
+			T                []int
 		}
-		B64 string
+		B64   string
+		Parts []struct { // optional: the input is B64 followed by every part repeated Rep times
+			B64 string
+			Rep int
+		}
 	}
 	must(json.Unmarshal(raw, &c))
 	out := map[string]any{}
 	switch c.Fam {
-	case "lines":
+	case "lines", "glines":
 		var sb strings.Builder
 		for i, l := range c.Lines {
 			sb.WriteString(renderIGCLine(l))
@@ -141,13 +202,13 @@ func igcHandler(raw json.RawMessage) map[string]any {
 				sb.WriteString("\n")
 			}
 		}
-		igcReadProj([]byte(sb.String()), out)
+		igcReadProj([]byte(sb.String()), out, "full")
 	case "tracks":
 		ls := geom.NewLineString(geom.Layout(5))
 		var flat []float64
 		for _, f := range c.Track {
-			flat = append(flat, float64(f.Lonq)/6000000., float64(f.Latq)/6000000., float64(f.Alt),
-				float64(int64(f.T[0])*86400+int64(f.T[1])), 0)
+			flat = append(flat, (float64(f.Lonq)+float64(f.Lone)/1e6)/6000000., (float64(f.Latq)+float64(f.Late)/1e6)/6000000.,
+				float64(f.Alt)+float64(f.Altf)/1000, float64(int64(f.T[0])*86400+int64(f.T[1])), 0)
 		}
 		ls = geom.NewLineStringFlat(geom.Layout(5), flat)
 		var buf bytes.Buffer
@@ -160,7 +221,7 @@ func igcHandler(raw json.RawMessage) map[string]any {
 		if ev != "ok" {
 			return map[string]any{"ev": "panic", "msg": "Encode: " + msg, "encerr": "", "got": []any{}, "layout": "?", "flatlen": 0, "nfix": 0, "nerr": 0, "times": [][]int{}}
 		}
-		t := igcReadProj(buf.Bytes(), out)
+		t := igcReadProj(buf.Bytes(), out, "dates")
 		got := []any{}
 		if t != nil && out["ev"] == nil {
 			for i := 0; i < t.LineString.NumCoords(); i++ {
@@ -174,7 +235,12 @@ func igcHandler(raw json.RawMessage) map[string]any {
 	case "bytes":
 		data, err := base64.StdEncoding.DecodeString(c.B64)
 		must(err)
-		igcReadProj(data, out)
+		for _, p := range c.Parts {
+			piece, err := base64.StdEncoding.DecodeString(p.B64)
+			must(err)
+			data = append(data, bytes.Repeat(piece, p.Rep)...)
+		}
+		igcReadProj(data, out, "")
 	}
 	return out
 }
